@@ -245,6 +245,9 @@ def stepCR (d : DS) (ws : List String) : Option (DS × List String) :=
     match parsePat pt with
     | some l => ini ps inc lvl l
     | none => some (d, ["bad-op"])
+  | ["crfill", v] =>
+    -- harness only (engine `mem`): the byte written behind the fill level; the model never looks there
+    if v == "off" || (match v.toNat? with | some n => n < 256 | none => false) then some (d, ["ok"]) else some (d, ["bad-op"])
   | ["crfeed", hex] =>
     match bytesOfHex hex with
     | some bs =>
